@@ -15,11 +15,6 @@ open TrustVerif.C15.Gen
 
 /-! ## Clause 1, the glue rule (table generated from `should_glue`) -/
 
-theorem Cls.mem_all (a : Cls) : a ∈ Cls.all := by
-  cases a with
-  | k x => cases x <;> decide
-  | temporal => decide
-
 /-- The whole table, decided by the kernel over all 46 × 46 class pairs and both styles. -/
 theorem c15_glue_table :
     ∀ a ∈ Cls.all, ∀ b ∈ Cls.all, ∀ st ∈ [Style.spaced, Style.compact],
@@ -72,64 +67,6 @@ theorem c15_glue_safe_counterexample :
 
 /-! ## Clause 1, one line re-emitted by `format_line_tokens` -/
 
-theorem formatLineTokensFrom_eq_render (kc : KwCase) (st : Style) (prev : Option Tok) (ts : List Tok) :
-    formatLineTokensFrom kc st (prev.map (·.kind)) ts =
-      renderFrom (fun a b => shouldGlue a.kind b.kind st) (prev.map (recaseTok kc)) (ts.map (recaseTok kc)) := by
-  induction ts generalizing prev with
-  | nil => simp [formatLineTokensFrom, renderFrom]
-  | cons t rest ih =>
-    have := ih (some t)
-    simp only [Option.map_some] at this
-    cases prev with
-    | none => simp [formatLineTokensFrom, renderFrom, sepBefore, recaseTok, this]
-    | some p => simp [formatLineTokensFrom, renderFrom, sepBefore, recaseTok, this]
-
-theorem recaseTok_cls (L : LexIface) (kc : KwCase) (t : Tok) (hv : L.valid t) : (recaseTok kc t).cls = t.cls := by
-  unfold recaseTok Tok.cls recase
-  cases kc with
-  | preserve => rfl
-  | upper =>
-    cases hk : t.isKw with
-    | false => simp
-    | true =>
-      have := L.valid_kw t hv hk
-      simp [classify, this]
-  | lower =>
-    cases hk : t.isKw with
-    | false => simp
-    | true =>
-      have := L.valid_kw t hv hk
-      simp [classify, this]
-
-theorem adjAll_of_no_hazards (L : LexIface) (kc : KwCase) (st : Style) (ts : List Tok)
-    (hv : ∀ t ∈ ts, L.valid t) (hh : lineHazards st ts = []) :
-    AdjAll (fun a b => (fun (a b : Tok) => shouldGlue a.kind b.kind st) a b = true →
-        classSafe a.cls b.cls = true) (ts.map (recaseTok kc)) := by
-  induction ts with
-  | nil => simp [AdjAll]
-  | cons a rest ih =>
-    cases rest with
-    | nil => simp [AdjAll]
-    | cons b r2 =>
-      simp only [lineHazards, List.append_eq_nil_iff] at hh
-      simp only [List.map_cons, AdjAll]
-      refine ⟨?_, ?_⟩
-      · intro hg
-        rw [recaseTok_cls L kc a (hv a (by simp)), recaseTok_cls L kc b (hv b (by simp))]
-        have hg' : shouldGlue a.kind b.kind st = true := by simpa [recaseTok] using hg
-        cases hc : classSafe a.cls b.cls with
-        | true => rfl
-        | false =>
-          have : gluedUnsafe a.cls b.cls st = true := by
-            have ka : a.cls.kind = a.kind := by
-              unfold Tok.cls classify; split <;> simp_all [Cls.kind]
-            have kb : b.cls.kind = b.kind := by
-              unfold Tok.cls classify; split <;> simp_all [Cls.kind]
-            simp [gluedUnsafe, ka, kb, hg', hc]
-          simp [this] at hh
-      · have := ih (fun t ht => hv t (by simp [ht])) hh.2
-        simpa [List.map_cons] using this
-
 /-- Clause 1 for one code line (no comment, no pragma): the text `format_line_tokens` emits lexes to the
 tokens it was made from, keywords re-cased as configured and nothing else changed — for EVERY token list
 without a recorded glue hazard, every spacing style and every keyword case.  Relative to the abstract
@@ -146,6 +83,23 @@ theorem c15_line_tokens (L : LexIface) (ts : List Tok) (kc : KwCase) (st : Style
     obtain ⟨u, hu, rfl⟩ := List.mem_map.mp ht
     exact L.valid_recase kc u (hv u hu)
   · exact adjAll_of_no_hazards L kc st ts hv hh
+
+/-- non-vacuity of the token hypotheses of `c15_line_tokens`: `x:=1 ;` has no glue hazard in either style and is
+re-emitted as `x := 1;` / `x:=1;` (the interface `L` itself is an assumption about the real lexer, validated
+by the harness; it is satisfiable, e.g. by the lexer that accepts no token) -/
+example :
+    let ts := [tk "Ident" .Ident "x", tk "Assign" .Assign ":=", tk "IntLiteral" .IntLiteral "1",
+               tk "Semicolon" .Semicolon ";"]
+    lineHazards .spaced ts = [] ∧ lineHazards .compact ts = [] ∧
+    formatLineTokens ts .preserve .spaced = txt "x := 1;" ∧ formatLineTokens ts .preserve .compact = txt "x:=1;" := by
+  decide
+
+example : LexIface :=
+  { lex := fun _ => [], valid := fun _ => False, valid_kw := fun _ h => h.elim, valid_recase := fun _ _ h => h.elim,
+    locality := fun _ ts hv _ => by
+      cases ts with
+      | nil => rfl
+      | cons t _ => exact (hv t (by simp)).elim }
 
 /-- "keywords compared case-insensitively": re-casing keeps variant and class, touches only keyword
 tokens, and replaces their text by its ASCII upper- or lower-case form. -/
@@ -190,6 +144,13 @@ theorem c15_verbatim_line (cfg : Config) (st : St) (l : LineIn) (o : OutLine) (s
       unfold emitLine
       simp only [hv, if_true]
       exact ⟨hsk, by simp, Or.inr ⟨_, rfl⟩⟩
+
+/-- non-vacuity of `c15_verbatim_line`: `  x:=1;  // c  ` at indent level 1 -/
+example :
+    (stepLine cfgDefault { indent := 1, inVar := false }
+      { lineOf "  x:=1;  // c  " [tk "Ident" .Ident "x", tk "Assign" .Assign ":=", tk "IntLiteral" .IntLiteral "1",
+                                   tk "Semicolon" .Semicolon ";"] with hasLineComment := true }).map (·.1.text) =
+      some (txt "    x:=1;  // c") := by decide
 
 /-- The wrapping pass returns a skipped line as it is. -/
 theorem c15_verbatim_wrap (unit : Text) (m : Nat) (o : OutLine) (h : o.skipAlign = true) :
@@ -279,17 +240,6 @@ theorem c15_web_comment_counterexample :
 
 /-! ## Robustness: the per-line loop never panics in the aligned style, and does in the indented style -/
 
-theorem curIndent_aligned_nonneg (cfg : Config) (indent : Int) (toks : List Tok)
-    (hc : cfg.endStyle = .aligned) (hi : 0 ≤ indent) :
-    0 ≤ (curIndent cfg indent toks).1 ∧ (curIndent cfg indent toks).2 = false := by
-  unfold curIndent
-  split
-  · split
-    · simp only [hc]
-      exact ⟨by simp only [if_true]; omega, by simp⟩
-    · exact ⟨hi, rfl⟩
-  · exact ⟨hi, rfl⟩
-
 /-- With `endKeywordStyle = aligned` (the default) `format_document` never reaches the negative
 `current_indent` that makes `indent_unit.repeat(current_indent as usize)` panic: for every list of
 lines, from every state with a non-negative indent. -/
@@ -329,16 +279,6 @@ theorem c15_no_panic_aligned (cfg : Config) (hc : cfg.endStyle = .aligned) (ls :
         cases hr : runLines cfg st2 rest with
         | none => rw [hr] at this; simp at this
         | some os => simp
-
-def tk (name : String) (kind : K) (text : String) : Tok := { name := name, kind := kind, text := text.toList }
-
-def lineOf (text : String) (toks : List Tok) : LineIn :=
-  { text := text.toList, toks := toks, inBlockComment := false, hasLineComment := false, hasPragma := false,
-    hasString := false }
-
-def cfgDefault : Config :=
-  { indentWidth := 4, insertSpaces := true, kwCase := .preserve, alignVar := true, alignAsg := true,
-    maxLen := none, style := .spaced, endStyle := .aligned }
 
 /-- non-vacuity -/
 example : (runLines cfgDefault {} [lineOf "END_IF" [tk "KwEndIf" .Kw "END_IF"], lineOf "x" [tk "Ident" .Ident "x"]]).isSome
@@ -452,19 +392,6 @@ theorem c15_range_edit (src formatted : Text) (a b : Nat) (e : Edit)
 example : srcLines (applyLineEdit (txt "a\nb\nc") { sl := 1, sc := 0, el := 2, ec := 0, newText := txt "  b\n" }) =
     [txt "a", txt "  b", txt "c"] :=
   c15_range_edit (txt "a\nb\nc") (txt "a\n  b\nc") 1 1 _ (by decide) (by decide) (by decide) (by decide) (by decide)
-
-def wrapSrc : Text := txt "foo(aaaaaaaa, bbbbbbbbb, ccccccccc);\nx := 1;\n"
-
-def wrapDoc : Doc :=
-  { lines := [
-      lineOf "foo(aaaaaaaa, bbbbbbbbb, ccccccccc);"
-        [tk "Ident" .Ident "foo", tk "LParen" .LParen "(", tk "Ident" .Ident "aaaaaaaa", tk "Comma" .Comma ",",
-         tk "Ident" .Ident "bbbbbbbbb", tk "Comma" .Comma ",", tk "Ident" .Ident "ccccccccc", tk "RParen" .RParen ")",
-         tk "Semicolon" .Semicolon ";"],
-      lineOf "x := 1;"
-        [tk "Ident" .Ident "x", tk "Assign" .Assign ":=", tk "IntLiteral" .IntLiteral "1", tk "Semicolon" .Semicolon ";"],
-      lineOf "" []],
-    crlf := false, endsNl := true }
 
 /-- Clause 3 is FALSE of the code: after `wrap_long_lines` split line 0 into three, on-type formatting of
 line 1 (`x := 1;`) returns the formatted line with index 1 — the second piece of line 0 — so applying the
